@@ -11,6 +11,12 @@ C11 — a commit that reports an I/O error neither corrupts nor half-applies.
   decided by kernel evaluation over all failure points and both outcomes of a partial header write);
   `pinned_order_fault_inconsistent` and `publish_after_write_insufficient` are the machine-checked
   witnesses of the repaired defect (D9) and of why the obvious smaller repair would not have been enough.
+What the Lean part does NOT carry (it is two booleans over the step list): that `commit` returns `Err` and
+does not panic, the state of the map after a failed `resize`, the fallible header re-read inside the
+publication guard, and a quiescent disk after a failed final sync — these are what the fault runs decide,
+per case: the shim reports whether it delivered an error and the driver demands that `commit` returned it.
+`failed_commit_is_atomic` / `failed_header_write_is_atomic` are instances of C02's kill / crash theorems;
+the content specific to C11 is `FaultConsistent` on the regenerated order and its two negative witnesses.
 Tie: every write / fsync index of real commits is failed through the LD_PRELOAD shim (EIO, ENOSPC after
 a short write), extension through RLIMIT_FSIZE; afterwards the visible state must be exactly before or
 after, the Lean file checker and DB::check must pass, three more commits and a reopen must refine the
